@@ -712,6 +712,50 @@ def c15_interior_point2(rng, p, depth=1e-3):
     raise RuntimeError("no interior point")
 
 
+def c15_shallow_interior_point2(rng, p, lo=1.5e-3, hi=1e-2):
+    """a point inside the ccw convex polygon p whose distance to ONE edge is between lo and hi diameters (so just
+    beyond the property's margin) and larger to all others: the case where an absolute tolerance in the convexity test
+    shows (accepted at small scales) although the point is interior by a clear relative margin."""
+    p = np.asarray(p, dtype=float)
+    diam = float(np.max(np.linalg.norm(p[:, None, :] - p[None, :, :], axis=-1)))
+    a, b = p, np.roll(p, -1, axis=0)
+    e = b - a
+    L = np.linalg.norm(e, axis=1)
+    for _ in range(200):
+        i = int(rng.integers(len(p)))
+        t = float(rng.uniform(0.25, 0.75))
+        depth = float(np.exp(rng.uniform(np.log(lo), np.log(hi))))
+        n_in = np.array([-e[i, 1], e[i, 0]]) / L[i]          # inward normal of a ccw polygon
+        x = a[i] + t * e[i] + depth * diam * n_in
+        dist = (e[:, 0] * (x[1] - a[:, 1]) - e[:, 1] * (x[0] - a[:, 0])) / L
+        if np.min(dist) > 0.99 * depth * diam and np.min(np.linalg.norm(p - x, axis=1)) > lo * diam:
+            return x, float(np.min(dist) / diam)
+    raise RuntimeError("no shallow interior point")
+
+
+def c15_shallow_interior_point3(rng, v, lo=1.5e-3, hi=1e-2):
+    """a point inside conv(v) between lo and hi diameters below the centroid of one facet triangle."""
+    v = np.asarray(v, dtype=float)
+    h = ConvexHull(v)
+    d = diameter(v)
+    for _ in range(200):
+        k = int(rng.integers(len(h.simplices)))
+        w = rng.dirichlet(np.ones(3) * 3.0)
+        depth = float(np.exp(rng.uniform(np.log(lo), np.log(hi))))
+        x = w @ v[h.simplices[k]] - depth * d * h.equations[k, :3]
+        dist = -(h.equations[:, :3] @ x + h.equations[:, 3])
+        if np.min(dist) > 0.99 * depth * d:
+            return x, float(np.min(dist) / d)
+    raise RuntimeError("no shallow interior point")
+
+
+def c15_rescale(rng, v, lo=-3.0, hi=3.0):
+    """multiply a point set by an extreme scale of the quantifier's range (1e-3 or 1e3, with jitter)"""
+    sc = float(10 ** (lo if rng.random() < 0.5 else hi) * rng.uniform(1.0, 2.0) ** (1 if rng.random() < 0.5 else -1))
+    sc = min(max(sc, 10 ** lo), 10 ** hi)
+    return np.asarray(v, dtype=float) * sc, sc
+
+
 def c15_interior_point3(rng, v, depth=1e-3):
     """a point inside conv(v) deeper than `depth` diameters (signed distance to every facet plane)."""
     v = np.asarray(v, dtype=float)
